@@ -1,6 +1,7 @@
 package main
 
 import (
+	"regexp"
 	"fmt"
 	"go/ast"
 	"go/constant"
@@ -438,7 +439,7 @@ func c15Wrappers(c *Ctx) {
 		c.NoteFunc(FuncName(fn))
 		as := ge.ReturnAtoms(fn, 0)
 		want := "call (types.Currency)." + w.sib + "(" + recv + ", " + w.arg + ")#0"
-		ok := len(as) == 1 && as[0] == want
+		ok := len(as) == 1 && plainCall(as[0]) == plainCall(want)
 		c.Check(ok, "wrapper", w.fn+":returns-quotient", c.P.Pos(fn.Pos()), ifElse(ok, "returns the quotient of "+w.sib, "returns "+joinShort(as)+" instead of the quotient of "+w.sib+" on the same operands"))
 	}
 	// quoRem: divisors below 2^64 go to quoRem64 and the remainder is widened unchanged
@@ -446,15 +447,15 @@ func c15Wrappers(c *Ctx) {
 		c.NoteFunc(FuncName(fn))
 		q := ge.ReturnAtoms(fn, 0)
 		r := ge.ReturnAtoms(fn, 1)
-		small := "call (types.Currency).quoRem64({types.Currency}, {types.Currency#2}.Lo)"
+		small := plainCall("call (types.Currency).quoRem64({types.Currency}, {types.Currency#2}.Lo)")
 		hasQ, hasR := false, false
 		for _, a := range q {
-			if strings.Contains(a, small+"#0") {
+			if strings.Contains(plainCall(a), small+"#0") {
 				hasQ = true
 			}
 		}
 		for _, a := range r {
-			if strings.Contains(a, "call types.NewCurrency64("+small+"#1)") {
+			if strings.Contains(plainCall(a), "call types.NewCurrency64("+small+"#1)") {
 				hasR = true
 			}
 		}
@@ -638,3 +639,9 @@ func c15Units(c *Ctx) {
 	sort.Strings(pk)
 	c.Check(len(diffs) == 0, "parser", "units:tables-agree", wherep, ifElse(len(diffs) == 0, fmt.Sprintf("%d printed units map to the same powers of ten in the parser table (%s)", len(units), strings.Join(pk, ",")), strings.Join(diffs, "; ")))
 }
+
+var recvCallRe = regexp.MustCompile(`call \(((?:[\w]+/)*[\w]+)\.[A-Za-z_]\w*\)\.`)
+
+// plainCall renders method calls "call (pkg.T).m(" as "call pkg.m(": an unexported method and a plain function of
+// the same name taking the value as first argument are the same step.
+func plainCall(a string) string { return recvCallRe.ReplaceAllString(a, "call $1.") }
